@@ -21,4 +21,20 @@ CLAIMS = {
   "design_ref": "DESIGN.md 5/C18"},
 }
 
+TB_TPL = ("Trusted: Coq 8.16.1 kernel incl. vm_compute; translator T1 (template flags of gen/__init__.py); the Python TPL lane (class generator, tagging handlers, "
+          "payload prober). Modelled-not-verified: attrs/dataclass __init__ (binding, defaults, converters: Templates.instantiate), the text->bytecode step of the generated "
+          "source (checked only through SyntaxError outcomes), dict/`in`/`[]` semantics of payload objects (a payload is any record of the six operations the hooks use). "
+          "Print Assumptions: closed under the global context.")
+
+CLAIMS["C04"] = {
+  "text": "Theorem C04_templates_agree (Props/C04.v): for every payload value type, class definition (any number/order/mix of required, defaulted, factory, kw_only, init=False, aliased, converter attributes), generator options, overrides, per-attribute handlers and EVERY payload object (dict or junk, as a record of the operations the generated code performs), the detailed-validation template and the fast template both reject or both accept with attribute-wise equal instances; C04_generation: hook creation cannot fail in one mode only. Proved by showing both templates refine one order-free specification (Proofs/TemplatesProofs.v: detailed_refines_spec, fast_refines_spec; positional vs keyword binding of __init__ arguments by a permutation argument). Template flags (errors re-checked after instantiation, keyword arguments emitted last) are regenerated from gen/__init__.py by T1 on every run: reverting fix F1/F2 breaks the named obligations in Proofs/SrcObligationsGen.v. Tie: TPL lane (Templates.v evaluated by vm_compute vs the real make_dict_structure_fn hooks on generated classes x payloads, both modes); the pairwise comparison on the implementation is the failing-input search.",
+  "note": TB_TPL + " Collection hooks (twin loops in converters.py/cols.py) and TypedDict templates are exercised by oracles only, not yet by a theorem.",
+  "technique": "Coq proof (refinement of both templates to one spec) + AST translator + differential correspondence",
+  "design_ref": "DESIGN.md 5/C04"}
+CLAIMS["C10"] = {
+  "text": "Theorems of Props/C10.v over the class templates: C10_forbid_adds_only_the_extra_key_check (enabling the flag changes the specification both templates refine in exactly one way: payloads with a key outside the accepted key set -- computed after renames/aliases -- are rejected), C10_fast/detailed_error_names_exactly_the_extras (the error carries the class and exactly the unknown keys; in detailed mode as the last member of the class group), C10_extras_inert (flag off: extending a dict payload with keys outside the accepted set cannot change the outcome). All classes, option/override combinations, handlers and payloads; no bound. Tie: T1 + TPL lane with extra keys incl. original names of renamed attributes. Nesting depth, NamedTuple-from-dict, TypedDict and the tagged-union tag key are decided by direct oracles on the implementation; known finding F4 (TypedDict keeps unknown keys) is reported as KNOWN-FINDING.",
+  "note": TB_TPL + " TypedDict templates are not modelled yet: that part of the statement is checked by the oracle only.",
+  "technique": "Coq proof over executable class-template model + AST translator + differential correspondence + direct oracle",
+  "design_ref": "DESIGN.md 5/C10"}
+
 NOT_APPLICABLE = {}
